@@ -228,83 +228,7 @@ pub fn run(rep: &mut Rep) {
             }
         }
     }
-    // one message for several subscriptions, some of whose streams have been given up: the live streams get it exactly once
-    // - also when the broker delivers a QoS 2 message again before releasing it
-    rep.note("dropped streams next to live ones: 2-3 subscriptions, every non-empty subset of their streams dropped (or never taken), an inbound QoS 0/1/2 message carrying all their subscription identifiers (in both orders), for QoS 2 delivered again before PUBREL, then released and the identifier used for a new message: every live stream yields each message exactly once");
-    let mut didx = 71_000_000u64;
-    for nsubs in 2..=3usize {
-        for dropped_mask in 1..(1u32 << nsubs) {
-            for qos in 0..3u8 {
-                for variant in 0..2u8 {
-                    let id = format!("dropped-streams:{nsubs}:{dropped_mask}:{qos}:{variant}");
-                    didx += 1;
-                    if !rep.take(didx, &id) {
-                        continue;
-                    }
-                    let mut w = World::boot(WorldCfg { seed: rep.seed, ..Default::default() });
-                    let mut subs = Vec::new();
-                    for j in 0..nsubs {
-                        let a = w.start(j % 2, Kind::Sub);
-                        w.settle_check();
-                        w.deliver_ack(a, 1, 0, 0);
-                        w.settle_check();
-                        subs.push(a);
-                    }
-                    let mut sids = Vec::new();
-                    for (j, &a) in subs.iter().enumerate() {
-                        sids.push(w.sub_id_of(a).unwrap_or(1 + j as u32));
-                        let gone = dropped_mask & (1 << j) != 0;
-                        if gone && variant == 1 {
-                            // the response is dropped without its stream ever being taken
-                            w.drop_stream(a);
-                        } else {
-                            w.take_stream(a);
-                            if gone {
-                                w.drop_stream(a);
-                            }
-                        }
-                        w.settle_check();
-                    }
-                    if variant == 1 {
-                        sids.reverse();
-                    }
-                    w.in_publish(qos, 5, false, &sids, false);
-                    w.settle_check();
-                    if qos == 2 {
-                        w.in_publish(2, 5, true, &sids, false);
-                        w.settle_check();
-                        w.in_publish(2, 5, true, &sids, false);
-                        w.settle_check();
-                        w.in_pubrel(5);
-                        w.settle_check();
-                    }
-                    w.in_publish(qos, 5, false, &sids, false);
-                    w.settle_check();
-                    if qos == 2 {
-                        w.in_publish(2, 5, true, &sids[..1], false);
-                        w.settle_check();
-                        w.in_pubrel(5);
-                        w.settle_check();
-                    }
-                    finish(&mut w);
-                    for v in w.viols.iter_mut() {
-                        if !v.props.contains(&"C15") && !v.props.contains(&"*") {
-                            v.sig = format!("C15/after-cancel/{}", v.sig);
-                            v.props = &["C15"];
-                        }
-                    }
-                    rep.add("evaluations", 1);
-                    rep.add("dropped_stream_next_to_live_ones_cases", 1);
-                    rep.add("cancellations", dropped_mask.count_ones() as i64);
-                    rep.distinct(&("dropped-streams", nsubs, dropped_mask, qos, variant));
-                    if harvest(rep, &mut w, &id) == 0 {
-                        rep.sample(|| format!("{id}: {} stream items checked", w.counters.stream_items_checked));
-                    }
-                    add_counters(rep, &w);
-                }
-            }
-        }
-    }
+    dropped_streams_next_to_live_ones(rep, true);
     // cancelled exchanges and the next connection: what a cancelled publish leaves behind must be exactly its unfinished
     // handshake - nothing once the broker has completed it - also when the session is resumed afterwards
     rep.note("cancellation, then resumption: QoS 1 / QoS 2 publishes cancelled before PUBREC, between the phases, or not at all; the broker completes all / some / none of the exchanges; connection lost, session resumed under Receive Maximum 2 or 3: exactly the unfinished handshakes are re-sent, the others' slots are free (probe), new publishes complete");
@@ -503,4 +427,89 @@ pub fn run(rep: &mut Rep) {
         harvest(rep, &mut w, &id);
         add_counters(rep, &w);
     }
+}
+
+/// One message for several subscriptions, some of whose streams have been given up: the live streams get it exactly once, and
+/// it is acknowledged exactly once - also when the broker delivers a QoS 2 message again before releasing it. (`claim`: report
+/// every consequence under C15, as C15's check does; C08's check calls this with its own rules' tags left alone.)
+pub fn dropped_streams_next_to_live_ones(rep: &mut Rep, claim: bool) {
+// one message for several subscriptions, some of whose streams have been given up: the live streams get it exactly once
+// - also when the broker delivers a QoS 2 message again before releasing it
+rep.note("dropped streams next to live ones: 2-3 subscriptions, every non-empty subset of their streams dropped (or never taken), an inbound QoS 0/1/2 message carrying all their subscription identifiers (in both orders), for QoS 2 delivered again before PUBREL, then released and the identifier used for a new message: every live stream yields each message exactly once");
+let mut didx = 71_000_000u64;
+for nsubs in 2..=3usize {
+    for dropped_mask in 1..(1u32 << nsubs) {
+        for qos in 0..3u8 {
+            for variant in 0..2u8 {
+                let id = format!("dropped-streams:{nsubs}:{dropped_mask}:{qos}:{variant}");
+                didx += 1;
+                if !rep.take(didx, &id) {
+                    continue;
+                }
+                let mut w = World::boot(WorldCfg { seed: rep.seed, ..Default::default() });
+                let mut subs = Vec::new();
+                for j in 0..nsubs {
+                    let a = w.start(j % 2, Kind::Sub);
+                    w.settle_check();
+                    w.deliver_ack(a, 1, 0, 0);
+                    w.settle_check();
+                    subs.push(a);
+                }
+                let mut sids = Vec::new();
+                for (j, &a) in subs.iter().enumerate() {
+                    sids.push(w.sub_id_of(a).unwrap_or(1 + j as u32));
+                    let gone = dropped_mask & (1 << j) != 0;
+                    if gone && variant == 1 {
+                        // the response is dropped without its stream ever being taken
+                        w.drop_stream(a);
+                    } else {
+                        w.take_stream(a);
+                        if gone {
+                            w.drop_stream(a);
+                        }
+                    }
+                    w.settle_check();
+                }
+                if variant == 1 {
+                    sids.reverse();
+                }
+                w.in_publish(qos, 5, false, &sids, false);
+                w.settle_check();
+                if qos == 2 {
+                    w.in_publish(2, 5, true, &sids, false);
+                    w.settle_check();
+                    w.in_publish(2, 5, true, &sids, false);
+                    w.settle_check();
+                    w.in_pubrel(5);
+                    w.settle_check();
+                }
+                w.in_publish(qos, 5, false, &sids, false);
+                w.settle_check();
+                if qos == 2 {
+                    w.in_publish(2, 5, true, &sids[..1], false);
+                    w.settle_check();
+                    w.in_pubrel(5);
+                    w.settle_check();
+                }
+                finish(&mut w);
+                if claim {
+                    for v in w.viols.iter_mut() {
+                        if !v.props.contains(&"C15") && !v.props.contains(&"*") {
+                            v.sig = format!("C15/after-cancel/{}", v.sig);
+                            v.props = &["C15"];
+                        }
+                    }
+                }
+                rep.add("evaluations", 1);
+                rep.add("dropped_stream_next_to_live_ones_cases", 1);
+                rep.add("cancellations", dropped_mask.count_ones() as i64);
+                rep.distinct(&("dropped-streams", nsubs, dropped_mask, qos, variant));
+                if harvest(rep, &mut w, &id) == 0 {
+                    rep.sample(|| format!("{id}: {} stream items checked", w.counters.stream_items_checked));
+                }
+                add_counters(rep, &w);
+            }
+        }
+    }
+}
 }
